@@ -17,3 +17,12 @@ claim("C12",
       "A necessary structural condition of determinism for all inputs and hash seeds; byte equality itself and third-party iteration order are not decided.",
       "pure/sort callee tables and the one S4 exception (yamlutils.fixMapKeysIn) in checker/internal/engb/det.go; third-party libraries deterministic",
       "DESIGN.md §2 C12, Appendix B-DET1")
+
+claim("C13",
+      "SSA/CFG precedence and routing rules for legacy/current keyword pairs (B-LEGACY), pointer-prefix matching, single-decoder must-pass-through",
+      "Decides the structural conditions that make two spellings decode to the same schema model: each legacy keyword (identified by json struct tag) is folded "
+      "into its current counterpart only when the latter is absent (dominating zero test, 4 pairs); both $ref pointer prefixes are matched case-insensitively; "
+      "JSON and YAML readers build the Schema only through encoding/json, the YAML path passing FixMapKeys before re-encoding; structural type comparison ignores "
+      "the raw $ref text. Necessary conditions of spelling-independence; byte equality of outputs and YAML scalar typing are not decided.",
+      "json struct tags name the keywords; encoding/json, goccy/go-yaml behave as documented",
+      "DESIGN.md §2 C13")
